@@ -447,14 +447,19 @@ int main(int argc, char** argv) {
                  }});
     // every single-precision value (thorough): 65536 cases x 65536 floats
     S.push_back({"all_float32", 0, 65536, [](uint64_t i, vf::Rng& r) {
-                   for (uint32_t lo = 0; lo < 65536; lo++) {
+#if VF_SANITIZER
+                   const uint32_t step = 61;  // the ASan build samples the float space; the production build enumerates it
+#else
+                   const uint32_t step = 1;
+#endif
+                   for (uint32_t lo = (uint32_t)(i % step); lo < 65536; lo += step) {
                      uint32_t fb = ((uint32_t)i << 16) | lo;
                      float f;
                      memcpy(&f, &fb, 4);
                      if (!std::isfinite(f) || f == 0) continue;
                      judge_double((double)f, r, false);
                    }
-                   vf::distinct_enum(65536);
+                   vf::distinct_enum(65536 / step);
                  }, false});
     S.push_back({"zero_and_nonfinite", 1, 1, [](uint64_t, vf::Rng& r) {
                    char out[40];
